@@ -442,6 +442,9 @@ class Ev:
                 ':' + part(s.step) if s.step is not None else '')
         try:
             v = self.ev(s)
+            if isinstance(v, Rat) and v.is_const():
+                c = v.n.constant() / v.d.constant()
+                return str(c)
             if isinstance(v, Rat) and v.d == ONEP:
                 return v.n.canon()
         except Inconclusive:
@@ -542,6 +545,13 @@ class Ev:
         raise Inconclusive(type(e).__name__ + ' ' + unparse(e))
 
     def elem(self, base, ik, node):
+        # a pure alias of an array-valued quantity: indexed atom
+        if base.d == ONEP and len(base.n.d) == 1:
+            (k, c), = base.n.d.items()
+            if c == 1 and len(k) == 1 and k[0][1] == 1 and \
+                    not isinstance(node.slice, ast.Compare) and \
+                    '<' not in ik and '>' not in ik and '=' not in ik:
+                return Rat.atom(f'{k[0][0]}[{ik}]')
         return base
 
     def arith(self, op, a, b, node=None):
@@ -764,7 +774,7 @@ def _iterate(self, it):
             if n is None:
                 return None
             base = self.key(it.args[0])
-            return [(Rat.const(i), self.read(f'{base}[{Poly.const(i).canon()}]'))
+            return [(Rat.const(i), self.read(f'{base}[{i}]'))
                     for i in range(n)]
     return None
 
